@@ -554,18 +554,31 @@ def tailstmt_compare(case, impl, model):
     if not impl.startswith("prog "):
         return f"impl={impl[:300]}", None
     parts = impl.split(" || ")
-    prog, verdict = parts[0], parts[1]
+    prog, verdict, per = parts[0], parts[1], parts[2]
     rewritten = " while " in prog
+    mparts = model.split(" || ")
+    mprog = mparts[0]
     tie = None
-    if model == "norewrite":
+    if mprog == "norewrite":
         if rewritten:
             tie = "implementation rewrote the function, the model does not"
-    elif not model.startswith("prog "):
+    elif not mprog.startswith("prog "):
         tie = f"model={model[:300]}"
     elif not rewritten:
         tie = "the model rewrites the function, the implementation does not"
-    elif canon_temps(" ".join(prog.split())) != canon_temps(" ".join(model.split())):
-        tie = f"rewritten program text differs: impl={canon_temps(prog)[:400]} model={canon_temps(model)[:400]}"
+    elif canon_temps(" ".join(prog.split())) != canon_temps(" ".join(mprog.split())):
+        tie = f"rewritten program text differs: impl={canon_temps(prog)[:400]} model={canon_temps(mprog)[:400]}"
+    if tie is None and len(mparts) == 3:
+        # the model's own semantics (runRec / runLoop) against the interpreter runs of the harness
+        for i, (r, m) in enumerate(zip(per.split(";"), mparts[1].split(";"))):
+            b, a = r.split("/")
+            b, a = b.split("|")[-1], a.split("|")[-1]
+            ms = m.split("/")
+            if not b.startswith("ret:") or ms[0] == "none":
+                continue       # timeout / depth limit on either side
+            if b != ms[0] or (len(ms) > 1 and a.startswith("ret:") and ms[1] != "none" and a != ms[1]):
+                tie = f"values differ for argument vector {i}: impl before/after={b}/{a} model rec/loop={m}"
+                break
     oracle = verdict if verdict.startswith("diff") else None
     return tie, oracle
 
@@ -760,6 +773,102 @@ def cpesem_compare(case, impl, model):
         tie = f"implementation keeps {kept}, model decides {mt[1]} (keeps {want})"
     elif "timeout" not in b and mt[2] != "none" and (b != mt[2] or a != mt[3]):
         tie = f"outputs differ: impl before/after={b[:120]} / {a[:120]} model before/after={mt[2][:120]} / {mt[3][:120]}"
+    oracle = verdict if verdict.startswith("diff") else None
+    return tie, oracle
+
+
+# ------------------------------------------------------------------------------------------------
+# cpeprog: several mutually calling functions (every call passes the decreasing counter first)
+# ------------------------------------------------------------------------------------------------
+
+def cpeprog_case(rng):
+    nf = rng.range(2, 3)
+    arity = {i: rng.range(2, 4) for i in range(1, nf + 1)}
+    consts = {i: [rng.range(0, 6) for _ in range(arity[i])] for i in arity}
+    mirs, toks = [], []
+    f0m, f0t = [], []
+    calls = list(range(1, nf + 1)) + [rng.range(1, nf) for _ in range(rng.range(0, 1))]
+    for k, i in enumerate(calls):
+        args = [str(rng.range(1, 2))] + [str(consts[i][j]) if rng.chance(4, 5) else str(rng.range(0, 9))
+                                         for j in range(1, arity[i])]
+        f0m += [f"call f{i} {arity[i]} " + " ".join(args) + f" x{700 + k}", f"call print 1 x{700 + k} _"]
+        f0t += ["C", f"x{700 + k}", f"f{i}", str(arity[i])] + args + ["P", "1", f"x{700 + k}"]
+    mirs.append("fn f0 0 " + " ".join(f0m) + " ret 0 end")
+    toks.append("F f0 0 " + " ".join(f0t) + " R 0")
+    for i in range(1, nf + 1):
+        n = arity[i]
+        ps = [f"p{j}" for j in range(n)]
+        m, t = ["bin x800 sub p0 1"], ["B", "x800", "sub", "p0", "1"]
+        acc, scope = "0", []
+        for sidx in range(rng.range(1, 3)):
+            k = rng.below(10)
+            if k < 7:
+                g = i if rng.chance(1, 2) else rng.range(1, nf)
+                if g == i:
+                    rest = ps[1:]
+                    mm = rng.below(10)
+                    if mm < 3 and len(rest) >= 2:
+                        rest = rng.shuffle(rest)
+                    elif mm < 8:
+                        rest = [(str(consts[i][j + 1]) if rng.chance(1, 3) else r) for j, r in enumerate(rest)]
+                    else:
+                        rest = [rng.pick(ps[1:] + scope + [str(rng.range(0, 5))]) for _ in rest]
+                else:
+                    rest = [(str(consts[g][j]) if rng.chance(1, 2) else rng.pick(ps[1:] + scope + [str(rng.range(0, 5))]))
+                            for j in range(1, arity[g])]
+                args = ["x800"] + rest
+                rc = f"x{810 + sidx}"
+                m.append(f"call f{g} {arity[g]} " + " ".join(args) + f" {rc}")
+                t += ["C", rc, f"f{g}", str(arity[g])] + args
+                nx = f"x{820 + sidx}"
+                m.append(f"bin {nx} add {acc} {rc}")
+                t += ["B", nx, "add", acc, rc]
+                acc = nx
+                scope.append(rc)
+            elif k < 9:
+                es = ["p0"] + [rng.pick(ps[1:] + scope) for _ in range(rng.range(0, 2))]
+                m.append(f"call print {len(es)} " + " ".join(es) + " _")
+                t += ["P", str(len(es))] + es
+            else:
+                nx = f"x{830 + sidx}"
+                a, b = rng.pick(ps[1:] + scope + ["3"]), rng.pick(ps[1:] + ["2"])
+                op = rng.pick(["add", "mul", "sub"])
+                m.append(f"bin {nx} {op} {a} {b}")
+                t += ["B", nx, op, a, b]
+                nx2 = f"x{840 + sidx}"
+                m.append(f"bin {nx2} add {acc} {nx}")
+                t += ["B", nx2, "add", acc, nx]
+                acc = nx2
+                scope.append(nx)
+        basev = rng.pick(ps[1:]) if rng.chance(1, 3) else str(rng.range(0, 3))
+        mirs.append(f"fn f{i} {n} bin x801 le p0 0 if x801 {{ }} {{ " + " ".join(m) + f" }} 1 x802 {basev} {acc} ret x802 end")
+        toks.append(f"F f{i} {n} B x801 le p0 0 I x801 R {basev} " + " ".join(t) + f" R {acc}")
+    return {"kind": "cpeprog", "line": "cpeprog | | " + " ".join(mirs) + f" ## {len(toks)} " + " ".join(toks)}
+
+
+def cpeprog_compare(case, impl, model):
+    if not impl.startswith("prog "):
+        return f"impl={impl[:300]}", None
+    parts = impl.split(" || ")
+    prog, verdict, per = parts[0], parts[1], parts[2]
+    kept = {}
+    tk = prog.split(" ")
+    for i, t in enumerate(tk):
+        if t == "fn":
+            kept[tk[i + 1]] = tk[i + 3:tk.index("]", i)]
+    mt = model.split(" ")
+    if mt[0] != "ok" or len(mt) != 4:
+        return f"model={model[:300]}", None
+    tie = None
+    for e in mt[1].split(";"):
+        f, st = e.split("=")
+        want = [f"p{i}" for i, x in enumerate(st.split(",")) if x == "X"] if st else []
+        if kept.get(f) != want:
+            tie = f"{f}: implementation keeps {kept.get(f)}, model decides {st} (keeps {want})"
+            break
+    b, a = per.split("/")
+    if tie is None and "timeout" not in b and mt[2] != "none" and (b != mt[2] or (mt[3] != "none" and a != mt[3])):
+        tie = f"outputs differ: impl before/after={b[:150]} / {a[:150]} model before/after={mt[2][:150]} / {mt[3][:150]}"
     oracle = verdict if verdict.startswith("diff") else None
     return tie, oracle
 
@@ -1118,6 +1227,50 @@ def e2e_effects(rng):
     return {"family": "effects-order", "src": srct, "expect": out, "std": False}
 
 
+def e2e_mapset(rng):
+    """std.map / std.set (AVL trees over a user class implementing Comparable) through closures."""
+    ks = [rng.range(0, 9) for _ in range(rng.range(2, 6))]
+    vs = [rng.range(1, 40) for _ in ks]
+    n = ks[0]
+    probe = rng.range(0, 9)
+    rem = rng.pick(ks)
+    m = {}
+    ins = "Map.empty<K, int>()"
+    for i, (k, v) in enumerate(zip(ks, vs)):
+        ins += f".insert(K.init({'n' if i == 0 else k}), {v})"
+        m[k] = v
+    fold = 0
+    for k in sorted(m):
+        fold = w32(fold * 3 + k + m[k])
+    sset = sorted(set(ks))
+    sins = "Set.empty<K>()" + "".join(f".insert(K.init({'n' if i == 0 else k}))" for i, k in enumerate(ks))
+    sfold = 0
+    for k in sset:
+        sfold = w32(sfold * 10 + k)
+    other = sorted(set(rng.range(0, 9) for _ in range(3)))
+    oins = "Set.empty<K>()" + "".join(f".insert(K.init({k}))" for k in other)
+    src = ("import { Comparable } from std.interfaces;\nimport { Map } from std.map;\nimport { Set } from std.set;\n"
+           "import { Option } from std.option;\n"
+           "class K(val v: int) : Comparable<K> { method compare(other: K): int = this.v - other.v }\n"
+           "class Main {\n  function main(): unit = {\n"
+           f"    let n = \"{n}\".toInt();\n    let m = {ins};\n"
+           "    let _ = Process.println(Str.fromInt(m.size()));\n"
+           f"    let _ = Process.println(Str.fromInt(m.get(K.init({probe})).valueMap(0 - 1, (x) -> x)));\n"
+           "    let _ = Process.println(Str.fromInt(m.fold(0, (a, k, v) -> a * 3 + k.v + v)));\n"
+           f"    let _ = Process.println(Str.fromInt(m.remove(K.init({rem})).size()));\n"
+           f"    let s = {sins};\n    let o = {oins};\n"
+           "    let _ = Process.println(Str.fromInt(s.size()));\n"
+           f"    let _ = Process.println(if s.contains(K.init({probe})) {{ \"yes\" }} else {{ \"no\" }});\n"
+           "    let _ = Process.println(Str.fromInt(s.fold(0, (a: int, k: K) -> a * 10 + k.v)));\n"
+           "    let _ = Process.println(Str.fromInt(s.union(o).size() * 100 + s.intersection(o).size() * 10 + s.diff(o).size()));\n"
+           "  }\n}\n")
+    so = set(other)
+    exp = [str(len(m)), str(m.get(probe, -1)), str(fold), str(len(m) - 1), str(len(sset)),
+           "yes" if probe in sset else "no", str(sfold),
+           str(len(set(sset) | so) * 100 + len(set(sset) & so) * 10 + len(set(sset) - so))]
+    return {"family": "std-map-set", "src": src, "expect": exp, "std": True, "extra": "set"}
+
+
 def e2e_case(rng):
     k = rng.below(100)
     if k < 14:
@@ -1137,19 +1290,70 @@ def e2e_case(rng):
         return e2e_list(rng)
     if k < 78:
         return e2e_constparam(rng)
-    if k < 90:
+    if k < 88:
         return e2e_iface(rng)
+    if k < 94:
+        return e2e_mapset(rng)
     return e2e_std(rng)
 
 
+def src_leg(ctx, progs, res, cases, stats):
+    """Extra leg (builder-SRC): every compiled program is also evaluated by the reference semantics
+    `Source.eval` (Lean, lean/SamVerif/Model/Source.lean through vlib/srceval.py) and compared with
+    the WebAssembly and TS runs. Degrades gracefully: skipped (and said so in the evidence) when the
+    interpreter or its dump tool is not available. A disagreement in which the compiled code does
+    match the output computed by the generator is a defect of the reference interpreter, not of the
+    compiler: it is recorded in the evidence for builder-SRC and raises nothing here; if the compiled
+    code matches neither, the ordinary end-to-end comparison below reports the violation."""
+    if os.environ.get("C01_NO_SRC_LEG"):
+        stats["src_leg"]["status"] = "disabled by C01_NO_SRC_LEG"
+        return
+    budget = stats["src_leg"].get("budget", 0)
+    if budget <= 0:
+        return
+    try:
+        from . import srceval
+        if not (os.path.exists(srceval.DRV) and os.path.exists(srceval.SRCDUMP)):
+            srceval.build()
+        sel = list(range(min(len(progs), budget)))
+        stats["src_leg"]["budget"] = budget - len(sel)
+        st, bad = srceval.check_c01_leg([progs[i] for i in sel], [res[i] for i in sel], legs=("wasm", "ts"))
+    except Exception as ex:     # missing drv-src / srcdump, build failure, crash of the interpreter
+        stats["src_leg"]["status"] = f"unavailable: {type(ex).__name__}: {str(ex)[:160]}"
+        stats["src_leg"]["budget"] = 0
+        return
+    sl = stats["src_leg"]
+    sl["status"] = "ran"
+    for k in ("programs", "compiled", "agree", "agree_flagged", "lines_compared", "model_rejects"):
+        sl[k] = sl.get(k, 0) + st.get(k, 0)
+    for k in ("excluded", "unevaluated"):
+        for why, n in st.get(k, {}).items():
+            sl.setdefault(k, {})[why] = sl.get(k, {}).get(why, 0) + n
+    for b in bad:
+        c = cases[sel[b["index"]]]
+        r = res[sel[b["index"]]]
+        w = r.get("wasm", {})
+        compiled_matches_generator = (w.get("lines"), w.get("end")) == (c["expect"], "ok")
+        sl["disagree"] = sl.get("disagree", 0) + 1
+        if compiled_matches_generator and len(sl.setdefault("disagreements_for_SRC", [])) < 3:
+            sl["disagreements_for_SRC"].append({"family": c["family"], "leg": b["leg"], "detail": str(b["detail"])[:300],
+                                                "source": c["src"][:1500]})
+
+
 def run_e2e(ctx, cases, label, stats):
-    progs = [{"sources": {"Main": c["src"]}, "entry": "Main", "std": bool(c.get("std")), "ts": True, "timeout_ms": 10000}
+    def sources(c):
+        d = {"Main": c["src"]}
+        if c.get("extra") == "set":      # std/set.sam is not among the modules the compiler embeds
+            d["std.set"] = open(os.path.join(common.REPO, "std", "set.sam")).read()
+        return d
+    progs = [{"sources": sources(c), "entry": "Main", "std": bool(c.get("std")), "ts": True, "timeout_ms": 10000}
              for c in cases]
     try:
         res = common.exec_programs(progs)
     except Exception as ex:  # oracle infrastructure failure is a broken tie, not silence
         ctx.violation("real-execution oracle failed to run", {"broken": "exec oracle", "error": repr(ex)}, no_input=True)
         return
+    src_leg(ctx, progs, res, cases, stats)
     for c, r in zip(cases, res):
         stats["e2e"] += 1
         stats["families"][c["family"]] = stats["families"].get(c["family"], 0) + 1
@@ -1212,6 +1416,13 @@ def check_protocol_cases(ctx, cases, label, stats):
                 stats["tailstmt_rewritten"] += 1
             if " cast " in a:
                 stats["tailstmt_snapshots"] += 1
+            if "plain=true good=true" in m and " while " in a:
+                stats["tailstmt_in_theorem_shape"] += 1
+        elif c["kind"] == "cpeprog":
+            tie, oracle = cpeprog_compare(c, a, m)
+            if m.startswith("ok") and any(x == "U" or x.startswith("C") for e in m.split(" ")[1].split(";")
+                                          for x in e.split("=")[1].split(",")):
+                stats["cpeprog_eliminated"] += 1
         elif c["kind"] == "cpesem":
             tie, oracle = cpesem_compare(c, a, m)
             if m.startswith("ok") and any(x in ("U",) or x.startswith("C") for x in m.split(" ")[1].split(",")):
@@ -1253,7 +1464,7 @@ PROBE_F2 = ("class Main {\n  function swap(a: int, b: int, n: int): int = if n =
 def run(ctx):
     res = common.proof_gate(ctx)
     rng = ctx.rng
-    stats = {"search_rng": None, "layout": 0, "tailrec": 0, "cpe": 0, "cpesem": 0, "cpesem_eliminated": 0, "tailstmt": 0, "tailstmt_rewritten": 0, "tailstmt_snapshots": 0, "e2e": 0, "e2e_ok": 0, "known_hits": 0, "families": {},
+    stats = {"src_leg": {"status": "not run", "budget": ctx.scale(120, 1500)}, "search_rng": None, "layout": 0, "tailrec": 0, "cpe": 0, "cpesem": 0, "cpesem_eliminated": 0, "cpeprog": 0, "cpeprog_eliminated": 0, "tailstmt": 0, "tailstmt_rewritten": 0, "tailstmt_snapshots": 0, "tailstmt_in_theorem_shape": 0, "e2e": 0, "e2e_ok": 0, "known_hits": 0, "families": {},
              "layout_unboxed": 0, "layout_conflating": 0, "tailrec_rewritten": 0, "no_node": False}
     try:
         common.build_exec()
@@ -1276,6 +1487,7 @@ def run(ctx):
     cases += [cpe_case(rng.fork(), rotate_bias=4) for _ in range(n_cpe)]
     cases += [cpesem_case(rng.fork()) for _ in range(n_cpe)]
     cases += [tailstmt_case(rng.fork()) for _ in range(n_tail)]
+    cases += [cpeprog_case(rng.fork()) for _ in range(n_cpe)]
     for i in range(0, len(cases), 400):
         check_protocol_cases(ctx, cases[i:i + 400], f"generated seed={ctx.seed}", stats)
         if ctx.violations:
@@ -1293,7 +1505,7 @@ def run(ctx):
             run_e2e(ctx, e2e[i:i + 60], f"generated seed={ctx.seed}", stats)
             if ctx.violations:
                 break
-    total = stats["layout"] + stats["tailrec"] + stats["cpe"] + stats["cpesem"] + stats["tailstmt"] + stats["e2e"]
+    total = stats["layout"] + stats["tailrec"] + stats["cpe"] + stats["cpesem"] + stats["cpeprog"] + stats["tailstmt"] + stats["e2e"]
     ctx.cov.update({
         "evaluations": total,
         "distinct_nontrivial": stats["layout_unboxed"] + stats["tailrec_rewritten"] + stats["e2e_ok"],
@@ -1304,12 +1516,12 @@ def run(ctx):
                 "non-trivial = layout case with at least one Unboxed variant + tailrec case that was rewritten into a loop + "
                 "e2e program whose wasm output matched",
         "samples": [cases[0]["line"][:300] if cases else "", cases[n_layout]["line"][:300] if len(cases) > n_layout else ""],
-        "traces_validated_against_impl": stats["layout"] + stats["tailrec"] + stats["cpe"] + stats["cpesem"] + stats["tailstmt"],
+        "traces_validated_against_impl": stats["layout"] + stats["tailrec"] + stats["cpe"] + stats["cpesem"] + stats["cpeprog"] + stats["tailstmt"],
         "histogram": {k: v for k, v in stats.items() if k != "search_rng"},
-        "pending": ["tailrec_equiv over full MIR statement lists: the rewrite incl. return-collector plumbing is modelled "
-                    "(Model/TailStmt.lean) and tied syntactically (tailstmt protocol), the equivalence theorem is proved only "
-                    "for the if-else-tree kernel", "constant-parameter elimination semantics for several mutually calling functions",
-                    "std map/set programs in the end-to-end leg"]})
+        "pending": ["K3b fragment lacks non-self calls / memory statements as non-tail statements; single-assignment "
+                    "well-formedness behind the iteration-state abstraction is assumed, not proved",
+                    "K4c: composition over several eliminated parameters (decision invariance under the rewrite); Int31/string constants",
+                    "match lowering is covered by C03 (MatchLower), not here"]})
     if stats["no_node"]:
         ctx.assumptions.append("Node >= 22 missing: end-to-end leg skipped, coverage reduced to the stage protocols")
     ctx.assumptions += ["runs hitting 32-bit overflow or division by zero are excluded by the property; generators avoid division",
